@@ -3,6 +3,7 @@ package hostile
 import (
 	"fmt"
 	"math/rand/v2"
+	"strings"
 )
 
 // allCfgs lists the server configurations the cases rotate through.
@@ -356,4 +357,75 @@ func corpusCases() []*Case {
 			{Kind: "idle", Conn: 1}}},
 		{Name: "corpus-ws-early-data", Cfg: cfg, Ops: []Op{acc, snd(append(wsReq(goodWSKey, "13", "rtsp.onvif.org"), []byte("EXTRA")...)), {Kind: "eof", Conn: 0}}},
 	}
+}
+
+// mikeyCases: SETUP (play and record, TCP and UDP) and ANNOUNCE on an rtsps server with key-management
+// material that is well-formed except for one field on a boundary (mikeySweep).
+func mikeyCases(full bool) []*Case {
+	var out []*Case
+	tcpCfg := Cfg{Handler: "full", UDP: false, TLS: true}
+	udpCfg := Cfg{Handler: "full", UDP: true, TLS: true}
+	acc := Op{Kind: "accept", Conn: 0}
+	eof := Op{Kind: "eof", Conn: 0}
+	req := func(r *RawReq, km *MikeySpec) Op { return Op{Kind: "send", Conn: 0, Req: r, KM: km} }
+	good := defaultMikey()
+	port := 36000
+	for i, m := range mikeySweep(full) {
+		m := m
+		keySweep := i <= 64
+		few := keySweep && (m.KeyLen == 0 || m.KeyLen == 15 || m.KeyLen == 16 || m.KeyLen == 29 || m.KeyLen == 30 || m.KeyLen == 31 || m.KeyLen == 64)
+		for _, kind := range []string{"tcp", "udp"} {
+			if kind == "udp" && !few && !full {
+				continue
+			}
+			cfg := tcpCfg
+			if kind == "udp" {
+				cfg = udpCfg
+			}
+			tr := func(record bool) string {
+				mode := ""
+				if record {
+					mode = ";mode=record"
+				}
+				if kind == "udp" {
+					port += 2
+					return fmt.Sprintf("RTP/SAVP;unicast;client_port=%d-%d%s", port, port+1, mode)
+				}
+				return "RTP/SAVP/TCP;unicast;interleaved=0-1" + mode
+			}
+			// record
+			pu := baseURL(cfg, "/pub")
+			out = append(out, &Case{Name: "mikey-record-" + kind + "-" + m.label(), Cfg: cfg, Ops: []Op{acc,
+				req(&RawReq{Method: "ANNOUNCE", URL: pu, Headers: hdr(1, [2]string{"Content-Type", "application/sdp"}), Body: validSDP(1)}, nil),
+				req(&RawReq{Method: "SETUP", URL: pu + "/trackID=0", Headers: hdr(2, [2]string{"Transport", tr(true)}, [2]string{"KeyMgmt", "{{KM}}"})}, &m),
+				req(&RawReq{Method: "RECORD", URL: pu, Headers: hdr(3, [2]string{"Session", "{{S0}}"})}, nil),
+				{Kind: "send", Conn: 0, Data: frameBytes(0, rtpPacket(96, 1))},
+				eof}})
+			// play
+			u := baseURL(cfg, streamPath)
+			out = append(out, &Case{Name: "mikey-play-" + kind + "-" + m.label(), Cfg: cfg, Ops: []Op{acc,
+				req(&RawReq{Method: "SETUP", URL: u + "/trackID=0", Headers: hdr(1, [2]string{"Transport", tr(false)}, [2]string{"KeyMgmt", "{{KM}}"})}, &m),
+				req(&RawReq{Method: "PLAY", URL: u, Headers: hdr(2, [2]string{"Session", "{{S0}}"})}, nil),
+				eof}})
+		}
+		// ANNOUNCE with the material in the SDP (session level / media level), then a correct secure SETUP
+		for _, level := range []string{"session", "media"} {
+			if level == "media" && !few && !full {
+				continue
+			}
+			sdp := validSDP(1)
+			if level == "session" {
+				sdp = strings.Replace(sdp, "t=0 0\r\n", "t=0 0\r\na=key-mgmt:mikey {{KMB64}}\r\n", 1)
+			} else {
+				sdp += "a=key-mgmt:mikey {{KMB64}}\r\n"
+			}
+			pu := baseURL(tcpCfg, "/pub")
+			out = append(out, &Case{Name: "mikey-announce-" + level + "-" + m.label(), Cfg: tcpCfg, Ops: []Op{acc,
+				req(&RawReq{Method: "ANNOUNCE", URL: pu, Headers: hdr(1, [2]string{"Content-Type", "application/sdp"}), Body: sdp}, &m),
+				req(&RawReq{Method: "SETUP", URL: pu + "/trackID=0", Headers: hdr(2, [2]string{"Transport", "RTP/SAVP/TCP;unicast;interleaved=0-1;mode=record"}, [2]string{"KeyMgmt", "{{KM}}"})}, &good),
+				req(&RawReq{Method: "RECORD", URL: pu, Headers: hdr(3, [2]string{"Session", "{{S0}}"})}, nil),
+				eof}})
+		}
+	}
+	return out
 }
